@@ -6,16 +6,16 @@ from vlib import *  # noqa
 CLAUSES = {"stale_limit", "panic", "abort", "hang"}
 
 
-def cfg(ops, view):
+def cfg(ops, view, fds="{1, 2}"):
     return """SPECIFICATION Spec
 CONSTANTS
-  Fds = {1, 2}
+  Fds = %s
   Tvs = {0, 1, 2}
   MaxOps = %d
   Deviations = {}
 %sINVARIANTS DumpHist
 CHECK_DEADLOCK FALSE
-""" % (ops, "VIEW view\n" if view else "")
+""" % (fds, ops, "VIEW view\n" if view else "")
 
 
 def run(pid, tier):
@@ -24,7 +24,7 @@ def run(pid, tier):
     cov = {}
     bindir = build_harness()
     mc_runs("SockOpt", [("MC_SockOpt.cfg", None), ("MC_SockOpt_setopt_assert.cfg", "NoViolation"),
-                        ("MC_SockOpt_close_keeps_cache.cfg", "CacheSound")], tier, cov)
+                        ("MC_SockOpt_close_keeps_cache.cfg", "CacheSound"), ("MC_SockOpt_cache_per_number.cfg", "CacheSound")], tier, cov)
     thorough = tier == "thorough"
     rng = random.Random(seed())
     scs = []
@@ -40,6 +40,10 @@ def run(pid, tier):
     hs, _ = tlc_replays("SockOpt", cfg(24, False), "sim", simulate=(400 if thorough else 80), depth=25, sd=seed())
     cov["tlc_simulated_histories"] = len(hs)
     scs += [{"hist": h, "src": "tlc-simulate"} for h in hs]
+    # three descriptor numbers: a socket with two numbers next to another socket, numbers and identities reused
+    hs, _ = tlc_replays("SockOpt", cfg(24, False, "{1, 2, 3}"), "sim3", simulate=(400 if thorough else 80), depth=25, sd=seed() + 1)
+    cov["tlc_simulated_histories"] += len(hs)
+    scs += [{"hist": h, "src": "tlc-simulate-3"} for h in hs]
     for i, s in enumerate(scs):
         s["id"] = i + 1
     tpath = drive(bindir, "sockopt", scs, wd, "oreset", "oend", timeout=3000)
